@@ -156,7 +156,7 @@ def run(n, seed, flt):
                     count += 1
                     caught, runs = [], {}
                     for pid in anc[f]:
-                        rc, out = sh(["python3", "run_check.py", pid, "--tier", "quick"], cwd=MVERIF, env=env, timeout=1500)
+                        rc, out = sh(["python3", "run_check.py", pid, "--tier", "quick"], cwd=MVERIF, env=env, timeout=700)
                         nv = len(re.findall(r"^VIOLATION", out, re.M))
                         runs[pid] = {"rc": rc, "violations": nv, "concrete": len(re.findall(r"^VIOLATION (?!.*no-failing-input-found)", out, re.M)), "tail": out[-160:]}
                         if rc != 0:
